@@ -81,20 +81,34 @@ CF = 'contracts/c3dframe.c'
 
 RC = 'contracts/records.c'
 
-UNITS = [
+PT = 'contracts/points.c'
+_PT_REPL = ['vf_vec_Point_push_back/contract_vf_vec_Point_push_back', 'vf_vec_Point_resize/contract_vf_vec_Point_resize',
+            'vf_string_assign/contract_vf_string_assign', 'vf_vec_float_assign/contract_vf_vec_float_assign']
+
+UNITS = [U('Points_point_' + c, PT, 'h_Points_point_' + c, ['Points__point__Point_sz/contract_Points__point__Point_sz'],
+           ['C06', 'C08', 'C10', 'C13', 'C01', 'C18'], replace=_PT_REPL, unwind=5, timeout=1200, level='PB', mem_gb=30,
+           bound='at most 100000 points per frame (the format holds 255)',
+           assumes=['contracts of vector<Point> growth (relocation = the required meaning of Point(const Point&)) are assumed'])
+         for c in ('append',)] + [
+    U('Points_point_alias', PT, 'h_Points_point_alias', ['Points__point__Point_sz/contract_alias_Points__point__Point_sz'],
+      ['C13', 'C06', 'C10'], replace=_PT_REPL[:2] + ['Point__assign/contract_shallow_Point__assign', 'Point__ctor__Point/contract_shallow_Point__ctor__Point'], unwind=5, timeout=1200,
+      level='PB', bound='at most 100000 points per frame'),
     U('B_Parameter_write_char1d', RC, 'h_Parameter_write_char1d', ['Parameter__write/contract_Parameter__write'],
       ['C03', 'C04', 'C12', 'C13', 'C14', 'C17', 'C10'],
       replace=['vf_stream_write/contract_vf_stream_write', 'ezc3d__toUpper/contract_ezc3d__toUpper'], unwind=6, timeout=2400,
       tier='thorough', sat='kissat', level='B', object_bits=12,
       bound='one-dimensional character parameter of declared width 2..4 (padding loop unwound), name <= 127, description <= 255'),
-    U('Parameters_read', RD, 'h_Parameters_read', ['Parameters__ctor__c3d/contract_Parameters__ctor__c3d'],
+    U('B_Parameters_read', RD, 'h_Parameters_read', ['Parameters__ctor__c3d/contract_Parameters__ctor__c3d'],
       ['C02', 'C13', 'C16', 'C18'],
       replace=['c3d__readUint/contract_c3d__readUint', 'c3d__readInt/contract_c3d__readInt', 'Group__read/contract_any_Group__read',
                'Group__parameter__c3d_int/contract_any_Group__parameter__c3d_int', 'Group__ctor/contract_any_Group__ctor',
                'vf_vec_Group_push_back/contract_grow_vf_vec_Group_push_back',
                'Parameters__group_nonConst__sz/contract_acc_Parameters__group_nonConst__sz'],
-      unwind=5, loops=True, timeout=5400, object_bits=12, tier='thorough', props={'memsafe': ['C13', 'C16']},
-      assumes=['termination of the record walker is not proved (no decreases clause on the outer loop)',
+      unwind=5, loops=True, timeout=1800, object_bits=12, level='B',
+      bound='the first 2 records of the parameter section (outer walker loop unwound twice, later records cut); every id byte, '
+            'group-table growth by loop contract', pre_unwind={'Parameters__ctor__c3d.0': 3, 'vf_string_ctor_lit.0': 2},
+      pre_unwind_assume=True, props={'memsafe': ['C13', 'C16']},
+      assumes=['termination of the record walker is not proved',
                'Group::read / Group::parameter(file) are abstracted by their possible outcomes']),
     U('Group_write', RC, 'h_Group_write', ['Group__write/contract_Group__write'], ['C01', 'C03', 'C04', 'C13', 'C14', 'C17', 'C10', 'C18'],
       replace=['vf_stream_write/contract_vf_stream_write', 'ezc3d__toUpper/contract_ezc3d__toUpper'], unwind=5, timeout=1800,
